@@ -26,7 +26,11 @@ def load_findings():
 def finding_matches(finding, prop, vclass, sig):
     if finding.get("property") != prop or finding.get("status") != "open":
         return False
-    if finding.get("class") != vclass:
+    fc = finding.get("class")
+    if isinstance(fc, list):
+        if vclass not in fc:
+            return False
+    elif fc != vclass:
         return False
     for k, v in (finding.get("match") or {}).items():
         if isinstance(v, list):
